@@ -309,6 +309,13 @@ func runC17(t *Trace, r *Rng, tier string, _ []string) {
 		}
 		ci.idx.Close()
 	}
+	// (3b) lexer and grammar against the Lean model: inputs written from the documented grammar
+	for i := 0; i < nFuzz; i++ {
+		c17ModelLines(t, "qs-model-grammar", c17GenGrammar(r))
+	}
+	for _, s := range c17FixedInputs {
+		c17ModelLines(t, "qs-model-fixed", s)
+	}
 	// (4) arbitrary input: no panic, and the answer for a probe does not depend on what was parsed before
 	alpha := []string{"a", "b", "ab", " ", " ", ":", "+", "-", "\"", "\\", "~", "^", "1", "2.5", ">", "<", "=", "*", "?", "/", "(", ")",
 		"\t", "\xff", "\xc3\xa9", "٣", "t0", "n0", "\n"}
@@ -329,6 +336,7 @@ func runC17(t *Trace, r *Rng, tier string, _ []string) {
 		if r.Chance(25) { // endings that leave the lexer in an unusual state
 			s += []string{"\\", "\"abc", "\"abc\\", "~", "^", "a:", ":", "\"", "+", "a~"}[r.Intn(10)]
 		}
+		c17ModelLines(t, "qs-model-fuzz", s)
 		_, res1 := parseQS(s)
 		if res1 == "PANIC" {
 			panics++
